@@ -185,7 +185,9 @@ func Generated[C any](t *testing.T, s Spec[C]) {
 		}
 		// the oracle first: a classifier may itself call the code under test, and must
 		// not meet a hang or a crash before the oracle (which bounds both) has seen the case
-		if err := Safe(func() error { return s.Prop(c) }); err != nil {
+		// (every generated case is small: one that burns a minute of CPU, or parks
+		// forever, has not terminated - whichever step of the oracle it is in)
+		if err := boundedCPU(func() error { return s.Prop(c) }, 60); err != nil {
 			ev.Default.Case(c, []string{"failed"}, true)
 			last, haveErr, lastMsg = c, true, err.Error()
 			rt.Fatalf("%s/%s: %v", s.ID, s.Name, err)
@@ -347,7 +349,10 @@ func blockedState() string {
 // state does not depend on the machine's load); any other stall without CPU
 // consumption is inconclusive and ends the process with status 2. Panics in f are returned
 // as errors.
-func Bounded(f func() error) error {
+func Bounded(f func() error) error { return boundedCPU(f, 20) }
+
+// boundedCPU is Bounded with the CPU budget (seconds) as a parameter.
+func boundedCPU(f func() error, cpuLimit float64) error {
 	done := make(chan error, 1)
 	go func() { done <- boundedBody(f) }()
 	select {
@@ -376,7 +381,7 @@ func Bounded(f func() error) error {
 			} else {
 				blocked = 0
 			}
-			if used := cpuSeconds() - cpu0; used > 20 {
+			if used := cpuSeconds() - cpu0; used > cpuLimit {
 				return fmt.Errorf("did not terminate: %.0f s of CPU consumed on a single input (normal cost: microseconds)", used)
 			}
 			if time.Since(start) > 5*time.Minute {
